@@ -224,4 +224,20 @@ theorem matches_iff_denote_intersect (n o : List Char) :
         rw [hs.eq_of_length_le hl2]; exact List.suffix_refl _
       · exact hs
 
+/-! ### the same laws for the `String` functions the rest of the model uses -/
+
+theorem subsetOf_refl_str (n : String) : subsetOf n n = true := subsetOf_refl _
+
+theorem subsetOf_trans_str (a b c : String) (h1 : subsetOf a b = true) (h2 : subsetOf b c = true) :
+    subsetOf a c = true := subsetOf_trans _ _ _ h1 h2
+
+theorem matches_symm_str (n o : String) : hostMatches n o = hostMatches o n := matches_symm _ _
+
+theorem matches_iff_subset_or_superset_str (n o : String) :
+    hostMatches n o = true ↔ (subsetOf n o = true ∨ subsetOf o n = true) :=
+  matches_iff_subset_or_superset _ _
+
+theorem subsetOf_antisymm_str (n o : String) (h1 : subsetOf n o = true) (h2 : subsetOf o n = true) : n = o :=
+  String.toList_inj.mp (subsetOf_antisymm _ _ h1 h2)
+
 end IstioModel.C07
